@@ -19,8 +19,15 @@ def run(cmd, **kw):
 
 def main():
     only = set(sys.argv[1:])
-    out = []
     root = os.path.join(HERE, "seeded")
+    # results are merged into the existing file, keyed by seed
+    regfile = os.path.join(os.environ.get("VERIF_REGRESSION_DIR", root),
+                           "REGRESSION.json")
+    try:
+        old = {r["seed"]: r for r in json.load(open(regfile))}
+    except (OSError, ValueError):
+        old = {}
+    out = []
     for sid in sorted(os.listdir(root)):
         d = os.path.join(root, sid)
         mp = os.path.join(d, "meta.json")
@@ -73,8 +80,12 @@ def main():
               {k: v["exit"] for k, v in rec.get("verdicts", {}).items()},
               flush=True)
         out.append(rec)
-        json.dump(out, open(os.path.join(root, "REGRESSION.json"), "w"),
-                  indent=1)
+        rec["verif_commit"] = run(["git", "-C", HERE, "log", "--format=%h",
+                                   "-1"]).stdout.strip()
+        rec["repo_commit"] = run(["git", "-C", "/repo", "log", "--format=%h",
+                                  "-1"]).stdout.strip()
+        old[sid] = rec
+        json.dump([old[k] for k in sorted(old)], open(regfile, "w"), indent=1)
 
 
 if __name__ == "__main__":
